@@ -44,4 +44,37 @@ PROPS = {
         ],
         explanation="",
     ),
+    "C14": dict(
+        module="SeliumModel.Props.C14",
+        suites=["codec"],
+        level="proof",
+        rule="string/bytes codecs on valid, invalid (every class of RFC 3629 violation at random positions) and random byte strings; BincodeCodec<T> for 9 Rust types (String, u64, Vec<u8>, tuple, Vec<String>, Option<String>, struct, enum, nested) on valid encodings, truncations, bit flips, adversarial lengths, trailing bytes; "
+             "compression round trip for every algorithm x mode x level (gzip/zlib 0-9+presets, zstd 10 levels+presets, lz4, brotli generic/text/font 0-11+presets) x 7 payload classes (empty, tiny, incompressible, repetitive, text, periodic, 64k random; thorough adds 1 MiB); "
+             "distinct = distinct case lines; the compression cases are TESTING of the hypothesis Compressor.Lossless, not proof",
+        trusted_base=COMMON_TRUST + [
+            "flate2, zstd, brotli, lz4_flex invert themselves (hypothesis Compressor.Lossless; tested per algorithm/mode/level/payload class, not proved)",
+            "bincode/serde layout as modelled in Wire/Bincode.lean; core::str::from_utf8 as modelled in Wire/Utf8.lean (both corresponded on every run)",
+        ],
+        assumptions=[
+            "theorems with suffix _partial assume the compressor inverts itself",
+            "strings are represented by their UTF-8 bytes",
+        ],
+        explanation="codec round trips and the wire composition are proved; the library compressors' own round trip is tested, not proved (no model of DEFLATE/zstd/brotli/LZ4)",
+    ),
+    "C06": dict(
+        module="SeliumModel.Props.C06",
+        suites=["wire", "codec"],
+        level="proof",
+        rule="every decoder is run in a child process under a 3 GiB address-space limit (panic and abort both observable) on random, truncated, bit-flipped and adversarial-length inputs: frame streams (wdec), batches (bdec), StringCodec, BytesCodec, BincodeCodec<T> for 9 types, 5 decompressors on damaged and random input; outcome (value / error / panic / abort) compared with the Lean model; distinct = distinct case lines",
+        trusted_base=COMMON_TRUST + [
+            "library decompressors (flate2, zstd, brotli, lz4_flex) return a value or an error on every input (hypothesis Compressor.Total; exercised in the guarded child, not proved)",
+            "serde's Vec/HashMap visitors cap pre-allocation (size_hint::cautious) — bounded constant, outside the model",
+            "bincode slice reader / bytes::Buf as modelled",
+        ],
+        assumptions=[
+            "theorems with suffix _partial assume a total decompressor",
+            "the subscriber's own poll_next glue around these functions is covered by the e2e suites of C03, not here",
+        ],
+        explanation="",
+    ),
 }
